@@ -13,7 +13,8 @@ BUDGET = {"quick": 2400, "thorough": 40000}
 RULE = (
     "case = generated scenario (max_nodes in {None,1,2,3}, processes-per-node in {unset,1,2,3}, node CPU count 1-4) "
     "x schedule x up to 3 moments at which the scheduler shows a queued/running batch in a non-terminal state outside "
-    "JADE's table (REQUEUED, SUSPENDED, RESIZING, ...; a suspended batch's processes do not run); after every sbatch the simulator's count of PENDING+RUNNING batches of the submission must be <= "
+    "JADE's table (REQUEUED, SUSPENDED, RESIZING, ...; a suspended batch's processes do not run) x optional resubmit-jobs issued the moment the submission completes "
+    "(the completing batch is still running); after every sbatch the simulator's count of PENDING+RUNNING batches of the submission must be <= "
     "max_nodes; after every job launch the number of live job processes of that node must be <= "
     "processes-per-node (or the node's SLURM_CPUS_ON_NODE when unset; local mode: the machine's CPU count); "
     "non-trivial = max_nodes set and more batches than max_nodes, or a batch with more jobs than workers; distinct "
@@ -28,6 +29,9 @@ def strategy(tier):
 
     def cases(**kw):
         return st.fixed_dictionaries({"scn": gen.scenarios(**kw), "schedule": gen.schedules(),
+                                      # resubmit-jobs issued the moment the submission is complete and the role is free:
+                                      # the batch that completed it is then still running
+                                      "resubmit_at_completion": st.sampled_from([False, False, True]),
                                       "exotic": st.lists(st.fixed_dictionaries({"at": st.integers(10, 400), "steps": st.integers(10, 200),
                                                                                  "which": st.integers(0, 7)}), max_size=3)})
 
@@ -37,9 +41,26 @@ def strategy(tier):
 def run_case(case):
     scn = case["scn"]
     with H.Sim(scn, schedule=case["schedule"], exotic=case.get("exotic", ())) as sim:
+        import os
+
+        if case.get("resubmit_at_completion") and scn["mode"] == "hpc":
+            def pred(ww):
+                cc = sim.cluster_config()
+                return bool(cc and cc.get("is_complete") and cc.get("submitter") is None)
+
+            def fire(ww):
+                sim.user_cmd(["resubmit-jobs", sim.out, "--successful"], name="resubmit")
+                sim.recovery_rounds = 0
+
+            sim.w.user_events.append(("resubmit", pred, fire, True))
         sim.submit()
         outcome = sim.drive()
+        if case.get("resubmit_at_completion") and any(r["k"] == "user" and r["cmd"] == "resubmit" for r in sim.w.log):
+            outcome = sim.drive()  # the rerun
+        sim.w.user_events.clear()
         res = C.base_result(case, sim, outcome)
+        if any(r["k"] == "user" and r["cmd"] == "resubmit" for r in sim.w.log):
+            res["classes"].append("resubmitted_while_last_batch_still_running")
         v = res["violations"]
         mx = scn["max_nodes"]
         sb = sim.w.events("sbatch")
